@@ -293,8 +293,9 @@ impl SchedulerCore {
     /// If we're running fewer than the maximum number of threads, try to spawn a new one
     ///
     pub (super) fn spawn_thread_if_less_than_maximum(&self) -> bool {
-        let max_threads = { *self.max_threads.lock().expect("Max threads lock") };
+        // The maximum is read while the thread list is locked, so a thread can't be added after the maximum was lowered and the pool despawned down to it
         let mut threads = self.threads.lock().expect("Scheduler threads lock");
+        let max_threads = { *self.max_threads.lock().expect("Max threads lock") };
 
         if threads.len() < max_threads {
             // Create a new thread
